@@ -10,6 +10,7 @@ import (
 	"runtime/debug"
 	"sort"
 	"strconv"
+	"strings"
 	"sync"
 	"testing"
 	"time"
@@ -278,6 +279,12 @@ func runProp[C any](t *testing.T, ev *Ev, sub string, journal bool, gen func(*ra
 			}()
 			return run(c, ev)
 		}()
+		if err != nil && strings.HasPrefix(err.Error(), "DISCARD:") {
+			// the case left the timing envelope the oracle assumes (the harness itself was late, say): it decides
+			// nothing either way and is counted as excluded, never as a violation and never as a passed case
+			ev.Exclude("discarded: " + discardReason(err))
+			return
+		}
 		if err != nil {
 			cc := c
 			lastFail = &cc
@@ -322,9 +329,20 @@ func TestReplay(t *testing.T) {
 			_ = f(h) // whatever it says: only the state it leaves behind matters
 		}()
 	}
-	if err := f(rf.Case); err != nil {
+	if err := f(rf.Case); err != nil && strings.HasPrefix(err.Error(), "DISCARD:") {
+		t.Logf("REPLAY-DISCARDED %s/%s: %v", rf.Property, rf.Sub, err)
+	} else if err != nil {
 		t.Fatalf("REPLAY-FAIL %s/%s: %v", rf.Property, rf.Sub, err)
 	}
+}
+
+// discardReason is the part of a DISCARD message before the first semicolon.
+func discardReason(err error) string {
+	m := strings.TrimSpace(strings.TrimPrefix(err.Error(), "DISCARD:"))
+	if i := strings.Index(m, ";"); i >= 0 {
+		m = m[:i]
+	}
+	return m
 }
 
 var registerFns []func()
